@@ -19,7 +19,9 @@ from .history import gen_swarm as history_swarm
 PROP = "C12"
 ROPEFOLDER = ".ropeproject"
 
-STR_POOL = ["", "a", "x.y", "0", "12", "007", "-1", "None", "défi", "日本", "a b", "$x", "l", "t", "v", "data", "references", "items"]
+STR_POOL = ["", "a", "x.y", "0", "12", "007", "-1", "None", "défi", "日本", "a b", "$x", "l", "t", "v", "data", "references", "items",
+            # digit-like strings: str.isdigit / isdecimal / isnumeric disagree on these
+            "²", "¹²³", "①", "1²", "٣", "１２", "½", "Ⅷ"]
 INT_POOL = [0, 1, -1, 2, 7, 12, 10**12, -(10**9)]
 
 
